@@ -529,6 +529,10 @@ func runDebugLock(line string) string {
 				err := nject.Sequence(name, items...).Bind(&inv, nil)
 				res[g].err = err
 				if err != nil {
+					if (g+round)%2 == 1 {
+						// callers add context with %w: the plain text is then the wrapped error's text
+						err = fmt.Errorf("while binding %s: %w", name, err)
+					}
 					res[g].detailed = nject.DetailedError(err)
 					if !strings.HasPrefix(res[g].detailed, err.Error()) {
 						res[g].detailed = "NOPREFIX"
